@@ -442,8 +442,10 @@ impl BitVector {
                 self.push(value)?;
             }
         } else if new_len < self.len {
-            // Truncate
+            // Truncate: drop the blocks above the new length as well, so that
+            // blocks() never exposes stale bits to the rank/select builders
             self.len = new_len;
+            self.blocks.resize((new_len + BITS_PER_BLOCK - 1) / BITS_PER_BLOCK, 0)?;
 
             // Clear bits in the last partial block
             if new_len > 0 {
